@@ -115,6 +115,10 @@ def shared_headers(repo):
         exp = {"insert": "(int 1)", "update": "(int 2)", "insert_or_update": "(bin | (ref insert) (ref update))"}
         if vals != exp:
             return False, "enum allow is %s, expected %s" % (vals, exp)
+        pk = [o for o in c.clang_objs(inc, "peek", "") if o.get("kind") == "EnumDecl" and o.get("name") == "peek"]
+        names = [e["name"] for e in pk[0]["inner"] if e.get("kind") == "EnumConstantDecl"] if len(pk) == 1 else None
+        if names is None or sorted(names) != ["no", "yes"]:
+            return False, "enum peek has the values %s, expected exactly no and yes" % names
     except Exception as e:      # noqa
         return False, "clang: %s" % e
     return True, "allow: insert = 1, update = 2, insert_or_update = insert | update; insert_allowed(a) = a & insert; update_allowed(a) = a & update"
